@@ -743,15 +743,22 @@ def spaths(body_or_fn, limit: int = 4000) -> List[SPath]:
             return out
         sst = _sub(st, p.env)
         env = p.env
-        if isinstance(st, ast.Assign) and len(st.targets) == 1 and isinstance(st.targets[0], ast.Name):
+        if isinstance(st, ast.Assign) and len(st.targets) >= 1 and all(isinstance(t, ast.Name) for t in st.targets):
             v = sst.value
             env = dict(env)
-            env[st.targets[0].id] = v if _size(v) <= _MAX_EXPR else ast.Name(id=st.targets[0].id, ctx=ast.Load())
+            for t in st.targets:  # a = b = value
+                env[t.id] = v if _size(v) <= _MAX_EXPR else ast.Name(id=t.id, ctx=ast.Load())
         elif isinstance(st, ast.Assign) and len(st.targets) == 1 and isinstance(st.targets[0], ast.Tuple) and isinstance(sst.value, ast.Tuple) \
                 and len(st.targets[0].elts) == len(sst.value.elts) and all(isinstance(t, ast.Name) for t in st.targets[0].elts):
             env = dict(env)
             for t, v in zip(st.targets[0].elts, sst.value.elts):
                 env[t.id] = v
+        elif isinstance(st, ast.Assign) and len(st.targets) == 1 and isinstance(st.targets[0], ast.Tuple) and all(isinstance(t, ast.Name) for t in st.targets[0].elts) \
+                and isinstance(sst.value, (ast.Subscript, ast.Attribute, ast.Name)) and _size(sst.value) <= 60:
+            # unpacking a stored sequence (a table row): the i-th name is the i-th element
+            env = dict(env)
+            for i, t in enumerate(st.targets[0].elts):
+                env[t.id] = ast.Subscript(value=clone(sst.value), slice=ast.Constant(value=i), ctx=ast.Load())
         elif isinstance(st, ast.AugAssign) and isinstance(st.target, ast.Name):
             env = dict(env)
             cur = env.get(st.target.id, ast.Name(id=st.target.id, ctx=ast.Load()))
